@@ -20,6 +20,8 @@ BUDGET_S = {"quick": 900, "thorough": 1500}
 
 
 def make_loader(cfg):
+    if cfg["side"] == "probe":
+        return {"random_impl_factory": symnp.RealRandom, "quiet_print": True}
     if cfg["side"] == "table":
         return {"random_impl_factory": symnp.SymRandom, "real_monitor": bool(cfg.get("verbose")), "quiet_print": True}
     return coding.make_loader(cfg)
@@ -29,6 +31,9 @@ def jobs(tier):
     J = []
     for k in ((1, 2, 3) if tier == "quick" else (1, 2, 3, 4)):
         J.append(dict(side="table", k=k, verbose=False))
+    # orders 5 and 6 (1024 / 4096 rows): concrete probes with numpy's real generator (the symbolic RNG stub does not scale to them)
+    for k in ((6,) if tier == "quick" else (5, 6)):
+        J.append(dict(side="probe", k=k))
     J.append(dict(side="table", k=1, verbose=True))
     J.append(dict(side="table", k=2, verbose=True))
     for fast in (False, True):
@@ -41,7 +46,7 @@ def jobs(tier):
 
 def bounds(tier):
     js = jobs(tier)
-    return {"table": "k <= %d, every seed value (symbolic), verbose on/off" % max(j["k"] for j in js if j["side"] == "table"),
+    return {"table": "k <= %d, every seed value (symbolic), verbose on/off; concrete probes at k = %s (real generator, seeds 0 and 2021)" % (max(j["k"] for j in js if j["side"] == "table"), [j["k"] for j in js if j["side"] == "probe"]),
             "bijection": "all 24 permutations x all live-arc patterns x all digits at every vertex of the order-1 graph (order-2 in thorough), both modes",
             "outside": "numpy's generator itself"}
 
@@ -49,6 +54,8 @@ def bounds(tier):
 def body(e, L, cfg):
     if cfg["side"] == "bij":
         return body_bij(e, L, cfg)
+    if cfg["side"] == "probe":
+        return body_probe(e, L, cfg)
     k = cfg["k"]
     N = 4 ** k
     seed = z3.Int("seed")
@@ -58,6 +65,8 @@ def body(e, L, cfg):
 
     def cex(m):
         return {"kind": "shuffles", "k": k, "seed": m.eval(seed, model_completion=True).as_long()}
+    import numpy as _real_numpy
+    po = _real_numpy.get_printoptions()
     try:
         t = L.create_random_shuffles(k, SymInt(seed), bool(cfg.get("verbose")))
     except core.Abort:
@@ -67,6 +76,13 @@ def body(e, L, cfg):
         if r != "sat":
             return {"status": "skip"}
         return {"status": "viol", "why": "create_random_shuffles raised %s: %s" % (type(ex).__name__, ex), "cex": cex(m)}
+    finally:
+        po2 = _real_numpy.get_printoptions()
+        _real_numpy.set_printoptions(**po)
+    if po2 != po:
+        # process-wide state other than the random generator: numpy's print options
+        r, m = e.check()
+        return {"status": "viol", "why": "the call changed numpy's print options: %s" % sorted(k_ for k_ in po if po[k_] != po2.get(k_)), "cex": dict(cex(m), verbose=bool(cfg.get("verbose")))}
     if not isinstance(t, symnp.Arr) or t.shape != (N, 4):
         r, m = e.check()
         return {"status": "viol", "why": "table of shape %s" % (getattr(t, "shape", None),), "cex": cex(m)}
@@ -118,6 +134,43 @@ def body(e, L, cfg):
         return {"status": "viol", "why": "second call does not repeat the seed / shuffle / reseed sequence on a table of its own", "cex": cex(m)}
     mm = e._ensure_model()
     return {"status": "ok", "sample": {"k": k, "rows": N, "rng_calls": len(calls), "seed": mm.eval(seed, model_completion=True).as_long()}}
+
+
+def body_probe(e, L, cfg):
+    """concrete probe (bug hunting): real numpy generator, orders beyond the symbolic bound -- one row per vertex, every row a
+    permutation, the same seed gives the same table (two seeds, two calls each), the RNG call log has the documented shape"""
+    k = cfg["k"]
+    N = 4 ** k
+    rnd = L.numpy.random
+    for seed in (0, 2021):
+        cex = {"kind": "shuffles", "k": k, "seed": seed}
+        tabs = []
+        for _ in range(2):
+            rnd.calls[:] = []
+            try:
+                t = L.create_random_shuffles(k, seed)
+            except core.Abort:
+                raise
+            except core.Inconclusive:
+                raise
+            except Exception as ex:
+                return {"status": "viol", "why": "create_random_shuffles(%d, %d) raised %s" % (k, seed, type(ex).__name__), "cex": cex}
+            rows = gen_rows(t)
+            if len(rows) != N or any(sorted(r) != [0, 1, 2, 3] for r in rows):
+                return {"status": "viol", "why": "order %d: table is not one permutation of 0..3 per vertex" % k, "cex": cex}
+            calls = rnd.calls
+            if not (len(calls) == N + 2 and calls[0] == ("seed", seed) and calls[-1] == ("seed", None) and all(c[0] == "shuffle" for c in calls[1:-1])):
+                return {"status": "viol", "why": "order %d: RNG call sequence %s..., expected seed(s), %d x shuffle(row), seed(None)" % (k, calls[:3], N), "cex": cex}
+            tabs.append(rows)
+        if tabs[0] != tabs[1]:
+            return {"status": "viol", "why": "order %d: the same seed %d gives two different tables" % (k, seed), "cex": cex}
+    return {"status": "ok", "sample": {"probe": "order %d, seeds 0 and 2021, two calls each" % k}}
+
+
+def gen_rows(t):
+    a = t.fix_len() if hasattr(t, "fix_len") else t
+    es = [core.concrete_int(x) if core.is_sym(x) else int(x) for x in a.elems()]
+    return [es[i:i + 4] for i in range(0, len(es), 4)]
 
 
 def body_bij(e, L, cfg):
